@@ -356,7 +356,7 @@ def stored_field(path, raw):
 
 
 def correspondence(ctx, obs, label, limit=None):
-    goals, meta = [], {}
+    goals, meta, neg = [], {}, {}
     sets = [o for o in obs if o["kind"] == "set"]
     if limit and len(sets) > limit:
         sets = sets[:: max(1, len(sets) // limit)]
@@ -390,9 +390,13 @@ def correspondence(ctx, obs, label, limit=None):
             if not is_finite_hex(val):
                 continue
             vq = coq_hex(val)
-            goal = f"let r := {call} in Rabs ({proj} - {vq}) <= 1e-12 * Rabs {vq}"
+            # angles go through rem_euclid(x, 2 pi) and, for negative x, `- 2 pi` again: binary64 cancellation leaves an ABSOLUTE error of
+            # a few ulp of 2 pi (~1e-15 rad) whatever the size of the angle, so a purely relative bound is wrong for tiny angles
+            slack = " + 1e-14" if proj.startswith(("b_theta", "b_phi")) else ""
+            goal = f"let r := {call} in Rabs ({proj} - {vq}) <= 1e-12 * Rabs {vq}{slack}"
             goals.append((f"s{j}_{q}", goal, f"cbv zeta; case_field {name}"))
             meta[f"s{j}_{q}"] = o
+            neg[f"s{j}_{q}"] = (f"let r := {call} in 0 < Rabs ({proj} - {vq}) - (1e-12 * Rabs {vq}{slack})", f"cbv zeta; case_field {name}")
     for j, o in enumerate([o for o in obs if o["kind"] == "sweep"]):
         nx, ny = o["nx"], o["ny"]
         for it in o["items"]:
@@ -402,9 +406,22 @@ def correspondence(ctx, obs, label, limit=None):
             goals.append((f"g{j}_{k}", g, "case_grid"))
             meta[f"g{j}_{k}"] = o
     res = run_interval_cases(ctx, "C18" + label, IMPORTS, goals)
+    # a goal coqc could not close is a DISAGREEMENT only if its negation can be closed; otherwise it is an unchecked obligation
+    failed = [cid for cid, ok in res.items() if not ok]
+    refuted = {}
+    if failed:
+        ngoals = [(cid, neg[cid][0], neg[cid][1]) for cid in failed if cid in neg]
+        if ngoals:
+            refuted = run_interval_cases(ctx, "C18neg" + label, IMPORTS, ngoals, shards=min(NCPU, max(1, len(ngoals))))
+            ctx.cov["obligations"] -= len(ngoals)
+            ctx.cov["discharged"] -= sum(1 for v in refuted.values() if v)
     nbad = 0
     for cid, ok in res.items():
         if ok:
+            continue
+        if cid in neg and not refuted.get(cid):
+            ctx.count("S4:unchecked")
+            ctx.note(f"correspondence goal {cid} ({meta[cid]['path']} = {fh(meta[cid]['v'])!r} on {meta[cid]['base']}) could be neither proved nor refuted by interval arithmetic: unchecked obligation")
             continue
         nbad += 1
         o = meta.get(cid)
